@@ -259,6 +259,26 @@ def run(chk: Check, ctx: Any) -> None:
         chk.decide("C09-R3", f"{cname}:registers", has, c.mod,
                    f"{cname} prints a statement for an op but never registers it in the source map: the op has no entry", "registers its op")
 
+    # a plain Jump is printed by the handler of the vertex after it (label / foreign label): its entry is registered on every path of the jump handler
+    jw = repo.func(f"{WH}.label_jumps.jump:JumpWriteHandler.write_content")
+    jcfg = build_cfg(jw.node)
+
+    def _registers(n: object) -> bool:
+        return isinstance(n, ast.stmt) and not isinstance(n, (ast.If, ast.For, ast.While, ast.Try, ast.With)) and any(
+            isinstance(c, ast.Call) and isinstance(c.func, ast.Attribute) and c.func.attr == "source_map_add_opcode" for c in ast.walk(n))
+    has_reg = any(_registers(n) for n in jcfg.stmt_nodes())
+    if not has_reg:
+        chk.violation("C09-R3", "JumpWriteHandler:registers-always", jw, "the jump handler never registers the Jump op: `jump @label;` statements have no entry")
+    else:
+        skip = jcfg.path_avoiding(jcfg.entry, jcfg.exit, _registers)
+        if not skip:
+            chk.hold("C09-R3", "JumpWriteHandler:registers-always", jw, "registered on every path")
+        else:
+            tests = [norm(n.test) for n in walk_no_nested(jw.node) if isinstance(n, ast.If) and any(_registers(x) for x in ast.walk(n))]
+            only_labels = any("SsbLabel)" in t and "SsbForeignLabel" not in t for t in tests)
+            chk.decide("C09-R3", "JumpWriteHandler:registers-always", False if only_labels else None, jw,
+                       f"the Jump op is registered only under `{tests[0] if tests else '?'}`: a jump into another routine is followed by a foreign label vertex, whose "
+                       "handler prints `jump @label;` for it, and that statement has no source map entry", "registered on every path")
     # ------------------------------------------------------------------ R4 synthetic vertices
     gm = repo.cls(f"{GM}.SsbGraphMinimizer")
     n_syn = 0
@@ -276,14 +296,22 @@ def run(chk: Check, ctx: Any) -> None:
                 # which marker does the synthetic vertex get -> which handler registers it
                 key = fkey(f, c)
                 # the handlers for ForeverBreak/ForeverContinue register self.start_vertex["op"].offset
-                synthetic_marked = any(isinstance(k, ast.keyword) and k.arg in ("synthetic",) for k in opk.keywords)
+                synthetic_marked = any(isinstance(k, ast.keyword) and k.arg in ("synthetic",) and isinstance(k.value, ast.Constant) and k.value.value is True
+                                       for k in opk.keywords)
+                # ... or `<vertex var>["op"].synthetic = True` for the variable the new vertex is assigned to
+                par = next((a for a in walk_no_nested(m) if isinstance(a, ast.Assign) and a.value is c and isinstance(a.targets[0], ast.Name)), None)
+                if par is not None:
+                    vn = par.targets[0].id  # type: ignore[union-attr]
+                    for n in walk_no_nested(m):
+                        if isinstance(n, ast.Assign) and norm(n.targets[0]) == f"{vn}['op'].synthetic" and isinstance(n.value, ast.Constant) and n.value.value is True:
+                            synthetic_marked = True
                 offset_reset = False
                 # look for `<var>["op"].offset = -1` or similar neutralisation right after
                 for n in walk_no_nested(m):
                     if isinstance(n, ast.Assign) and any(isinstance(t, ast.Attribute) and t.attr == "offset" for t in n.targets):
                         offset_reset = True
                 guards = _handlers_skip_synthetic(repo)
-                ok = synthetic_marked or offset_reset or guards
+                ok = offset_reset or (guards and synthetic_marked)
                 chk.decide("C09-R4", key, ok, f,
                            f"`{norm(opk)}` gives the synthetic break/continue vertex the offset of `{norm(src)}` (SsbLabelJump copies root.offset); its "
                            "write handler registers that offset again, so the source map entry of the real op (an if/switch header or operation) "
